@@ -100,20 +100,20 @@ def param_write_summaries(P):
             for c in f.calls():
                 g = P.resolve(f, c.callee)
                 for k, a in enumerate(c.a):
-                    p = f.path(a)
-                    if p[0][0] != 'arg' or not f.params[p[0][1]][1].endswith('*'):
-                        continue
-                    i = p[0][1]
-                    if i in W[f]:
-                        continue
-                    if g is None:
-                        if (c.callee or '').startswith('llvm.') and not (c.callee or '').startswith(('llvm.mem',)):
+                    for i in arg_roots(f, a):
+                        if not f.params[i][1].endswith('*') or i in W[f]:
                             continue
-                        if (c.callee or '').startswith(('llvm.memcpy', 'llvm.memmove')) and k == 1:
+                        # only the pointer itself (not a value loaded through it) carries the capability
+                        if f.path(a)[0][0] == 'load':
                             continue
-                        W[f].add(i); changed = True
-                    elif k in W[g]:
-                        W[f].add(i); changed = True
+                        if g is None:
+                            if (c.callee or '').startswith('llvm.') and not (c.callee or '').startswith(('llvm.mem',)):
+                                continue
+                            if (c.callee or '').startswith(('llvm.memcpy', 'llvm.memmove')) and k == 1:
+                                continue
+                            W[f].add(i); changed = True
+                        elif k in W[g]:
+                            W[f].add(i); changed = True
     P._pws = W
     return W
 
